@@ -1,0 +1,203 @@
+//go:build verif
+
+package mvp8_0
+
+import (
+	"sort"
+
+	"github.com/teivah/majorana/proc/comp"
+	"github.com/teivah/majorana/risc"
+)
+
+// Verification-only rig and snapshot exporter (build tag "verif").
+
+func verifSnapshot(ctx *risc.Context, m *msi, ccs []*cacheController, nextLevel func(base comp.AlignedAddress) []int8) comp.VerifSnap {
+	n := len(ccs)
+	snap := comp.VerifSnap{Cores: n, Cap: l1DCacheSize / l1DCacheLineSize, L1Len: make([]int, n)}
+	bases := map[comp.AlignedAddress]bool{}
+	for e := range m.states {
+		bases[e.alignedAddr] = true
+	}
+	for a := range m.pendings {
+		bases[a] = true
+	}
+	for c := range m.commands {
+		if c.request == l1Evict || c.request == l1WriteBack {
+			bases[c.alignedAddr] = true
+		}
+	}
+	for i, cc := range ccs {
+		snap.L1Len[i] = len(cc.l1d.Lines())
+		for _, l := range cc.l1d.Lines() {
+			b := l.Boundary[0]
+			bases[b-b%l1DCacheLineSize] = true
+		}
+	}
+	sorted := make([]comp.AlignedAddress, 0, len(bases))
+	for b := range bases {
+		sorted = append(sorted, b)
+	}
+	sort.Slice(sorted, func(i, j int) bool { return sorted[i] < sorted[j] })
+	for _, b := range sorted {
+		vl := comp.VerifLine{Base: int32(b), St: make([]int, n), Cnt: make([]int, n), Hash: make([]int, n),
+			Misaligned: make([]bool, n), Busy: make([]bool, n), Cmd: make([]int, n)}
+		for i, cc := range ccs {
+			vl.St[i] = int(m.states[msiEntry{i, b}])
+			for _, l := range cc.l1d.Lines() {
+				if l.Boundary[0] <= b && b < l.Boundary[1] {
+					if vl.Cnt[i] == 0 {
+						off := int(b - l.Boundary[0])
+						end := off + l1DCacheLineSize
+						if end > len(l.Data) {
+							end = len(l.Data)
+						}
+						vl.Hash[i] = comp.VerifHash(l.Data[off:end])
+					}
+					vl.Cnt[i]++
+					if l.Boundary[0]%l1DCacheLineSize != 0 || int(l.Boundary[1]-l.Boundary[0]) != l1DCacheLineSize {
+						vl.Misaligned[i] = true
+					}
+				}
+			}
+			_, r := cc.l1RLockSems[b]
+			_, w := cc.l1LockSems[b]
+			vl.Busy[i] = r || w
+			if _, ok := m.commands[msiCommandRequest{i, b, l1Evict}]; ok {
+				vl.Cmd[i] = 1
+			}
+			if _, ok := m.commands[msiCommandRequest{i, b, l1WriteBack}]; ok {
+				vl.Cmd[i] = 2
+			}
+		}
+		if sem, ok := m.pendings[b]; ok {
+			vl.SemR, vl.SemW = sem.VerifCounters()
+		}
+		vl.Next = comp.VerifHash(nextLevel(b))
+		snap.Lines = append(snap.Lines, vl)
+	}
+	return snap
+}
+
+func memLine(ctx *risc.Context, b comp.AlignedAddress) []int8 {
+	out := make([]int8, l1DCacheLineSize)
+	for i := range out {
+		if int(b)+i < len(ctx.Memory) {
+			out[i] = ctx.Memory[int(b)+i]
+		}
+	}
+	return out
+}
+
+// VerifRig drives the cache controllers, the coherence directory and memory
+// without a pipeline, in the per-cycle order of CPU.Run: all snoop coroutines
+// first, then each core's outstanding request.
+type VerifRig struct {
+	ctx   *risc.Context
+	msi   *msi
+	ccs   []*cacheController
+	rd    []*ccReadReq
+	wr    []*ccWriteReq
+	Done  []int // completed requests per core
+	Last  [][]int8
+	cycle int
+	l3    *comp.LRUCache
+}
+
+func NewVerifRig(cores int, memoryBytes int) *VerifRig {
+	ctx := risc.NewContext(false, memoryBytes, true)
+	mmu := newMemoryManagementUnit(ctx)
+	m := newMSI()
+	r := &VerifRig{ctx: ctx, msi: m, rd: make([]*ccReadReq, cores), wr: make([]*ccWriteReq, cores), Done: make([]int, cores), Last: make([][]int8, cores)}
+	r.l3 = comp.NewLRUCache(l3CacheLineSize, l3CacheSize)
+	for i := 0; i < cores; i++ {
+		r.ccs = append(r.ccs, newCacheController(i, ctx, mmu, m, r.l3))
+	}
+	return r
+}
+
+func (r *VerifRig) Memory() []int8 { return r.ctx.Memory }
+
+func (r *VerifRig) Busy(core int) bool { return r.rd[core] != nil || r.wr[core] != nil }
+
+// StartRead issues a word read of core at addr (the request is cycled from the next Cycle on).
+func (r *VerifRig) StartRead(core int, addr int32) {
+	r.rd[core] = &ccReadReq{addrs: []int32{addr, addr + 1, addr + 2, addr + 3}}
+}
+
+// StartWrite issues a word write.
+func (r *VerifRig) StartWrite(core int, addr int32, v int8) {
+	r.wr[core] = &ccWriteReq{addrs: []int32{addr, addr + 1, addr + 2, addr + 3}, data: []int8{v, v, v, v}}
+}
+
+// Flush aborts the outstanding request of a core the way executeUnit.flush does.
+func (r *VerifRig) Flush(core int) {
+	r.ccs[core].flush()
+	r.rd[core], r.wr[core] = nil, nil
+}
+
+// Cycle runs one cycle.
+func (r *VerifRig) Cycle() {
+	r.cycle++
+	for _, cc := range r.ccs {
+		cc.snoop.Cycle(struct{}{})
+	}
+	for i, cc := range r.ccs {
+		if q := r.rd[i]; q != nil {
+			q.cycle = r.cycle
+			if resp := cc.read.Cycle(*q); resp.done {
+				r.rd[i] = nil
+				r.Done[i]++
+				r.Last[i] = resp.data
+			}
+		} else if q := r.wr[i]; q != nil {
+			q.cycle = r.cycle
+			if resp := cc.write.Cycle(*q); resp.done {
+				r.wr[i] = nil
+				r.Done[i]++
+			}
+		}
+	}
+}
+
+// Quiet reports whether nothing is outstanding (requests, snoops, commands).
+func (r *VerifRig) Quiet() bool {
+	for i, cc := range r.ccs {
+		if r.Busy(i) || !cc.snoop.IsStart() {
+			return false
+		}
+	}
+	return len(r.msi.commands) == 0
+}
+
+func nextLevel8(ctx *risc.Context, l3 *comp.LRUCache, b comp.AlignedAddress) []int8 {
+	for _, l := range l3.Lines() {
+		if l.Boundary[0] <= b && b < l.Boundary[1] {
+			off := int(b - l.Boundary[0])
+			end := off + l1DCacheLineSize
+			if end > len(l.Data) {
+				end = len(l.Data)
+			}
+			return l.Data[off:end]
+		}
+	}
+	return memLine(ctx, b)
+}
+
+// Export writes the modified lines back the way CPU.Run does at the end.
+func (r *VerifRig) Export() {
+	for _, cc := range r.ccs {
+		cc.writeBack()
+	}
+	for _, line := range r.l3.Lines() {
+		r.ccs[0].mmu.writeToMemory(line.Boundary[0], line.Data)
+	}
+}
+
+func (r *VerifRig) Snapshot() comp.VerifSnap {
+	return verifSnapshot(r.ctx, r.msi, r.ccs, func(b comp.AlignedAddress) []int8 { return nextLevel8(r.ctx, r.l3, b) })
+}
+
+// VerifSnapshot exports the coherence state of a running CPU.
+func (m *CPU) VerifSnapshot() comp.VerifSnap {
+	return verifSnapshot(m.ctx, m.msi, m.cacheControllers, func(b comp.AlignedAddress) []int8 { return nextLevel8(m.ctx, m.l3, b) })
+}
